@@ -9,6 +9,14 @@ ALL = ["C%02d" % i for i in range(1, 21)]
 
 # id -> dict(level, technique, text, note, design_ref, engine)
 CHECKS = {
+    "C18": dict(
+        level="exploration",
+        engine="E1-enum",
+        technique="bounded-exhaustive enumeration of programs rendered against a recording context object, compared with the static undeclared_variables report",
+        text="81 hand-enumerated assignment-bearing and expression forms (self-referential set, with, dotted set, unpacking, slices and subscripts of variables, macro defaults/bodies/closures, call blocks with arguments and defaults, loops reading their own target, set blocks with filters, autoescape expressions, filter blocks) and every program of the depth-2 generator space (quick: every 5th; thorough: all plus every 211th of depth 3) are rendered with an Object that records every key the engine asks it for, under all-keys, no-keys and every subset of up to 4 mentioned keys (so both arms of data-dependent control flow are taken); each recorded key must be in undeclared_variables(false) or be a global, and be the head of a path of undeclared_variables(true).",
+        note="Debug info is switched off because a failing render re-reads every mentioned name for its error report. The engine-reserved names loop/self/super/caller/varargs/kwargs are not judged (the engine probes `loop` internally).",
+        design_ref="2/C18",
+    ),
     "C12": dict(
         level="exploration",
         engine="E1-enum",
